@@ -26,7 +26,7 @@ RULE = (
     "S on the real RunEngine: every (P,I,O,K) source mask for each of 3 keys (plan_name, plan_type, one free key; 16^3 "
     "combinations, source- and call-tagged values, O values differ per run) x normaliser {identity, key-renaming}; "
     "validator {accept, reject the (runs//2+1)-th open_run (plan catches)} x runs per call in {1,2,3}, full cross (49152 "
-    "calls); thorough adds a third validator mode (reject, plan does not catch) and a bare-generator plan object as third "
+    "calls) plus every mask combination once more with the persistent dictionary REPLACED before the call (RE.md = a new dict with the same content; 4096 calls, thorough x normaliser x validator); thorough adds a third validator mode (reject, plan does not catch) and a bare-generator plan object as third "
     "plan_type variant (92160 calls).  Oracle per emitted "
     "start: merged = RE.md < identity(type(plan).__name__, getattr(plan,'__name__','')) < open_run kwargs < RE kwargs "
     "compared in full with what validator and normaliser were given; start document == normaliser output + uid/time; "
@@ -76,12 +76,19 @@ def _cases(tier):
                 for val in ("accept", "reject"):
                     for runs in (1, 2, 3):
                         out.append((masks, "class", norm, val, runs))
+        # the persistent source REPLACED (RE.md = <new dict with the same content>) just before the call
+        for masks in all_masks:
+            out.append((masks, "class-newmd", "identity", "accept", 2))
     else:
         for masks in all_masks:
             for norm in ("identity", "rename"):
                 for val in ("accept", "reject", "reject-uncaught"):
                     for runs in (1, 2, 3):
                         out.append((masks, "class", norm, val, runs))
+        for masks in all_masks:
+            for norm in ("identity", "rename"):
+                for val in ("accept", "reject"):
+                    out.append((masks, "class-newmd", norm, val, 2))
         # bare generator object: cannot carry attributes (free-key I bit fixed 0); plan_type I bit fixed 0
         for masks in all_masks:
             if masks[1] & I or masks[2] & I:
@@ -147,6 +154,8 @@ def _classes():
             masks, form, norm, val, runs = case
             masks = tuple(masks)
             res = {"n": n}
+            if form.endswith("-newmd"):
+                RE.md = dict(RE.md)  # a new persistent dictionary (same content, scan_id included) is installed
             # persistent source
             for key, mk in zip(KEYS, masks):
                 if mk & P:
